@@ -1,4 +1,5 @@
 import OjgVerif.JPText.LemmasExpr
+import OjgVerif.Gen.JpFacts
 /-! # C06jp — the JSONPath and script parsers on malformed text (sub-check of C06)
 
 C06 for `jp.ParseString`/`jp.Parse`/`jp.NewScript`/`jp.NewFilter` and their `Must*` variants: termination on
@@ -14,8 +15,10 @@ run: accept/reject and the printed form of what was read) gives:
   `none` — there is no third, faulting outcome in the model, because every partial operation of the Go code
   (`p.buf[p.pos]`, `p.buf[a:b]`, `opMap[…]` of a missing key, a nil right operand) is a pattern match whose
   missing case IS the error result (`*_error_or_value`);
-* on the five kinds of text on which the pinned Go code reports the error through a runtime fault (known
-  finding C06jp-fault-as-error) the model gives the error result (`fault_inputs_are_errors`);
+* on the five kinds of text on which the Go code before a3a42a0 reported the error through a runtime fault
+  (finding C06jp-fault-as-error, fixed) the model gives the error result (`fault_inputs_are_errors`), and the
+  five bounds checks of that commit are in the regenerated source (`guards_present`, read from the syntax
+  tree of jp/parse.go by tools/extract/jptext.go);
 * a text printed from a constructible filter-free expression is accepted, and so is the text printed from
   what was read (`reprint_accepted`, from the C14 theorems); the fuel the entry points start with is enough
   on such texts (it is part of that proof: `readExprLoop_clean`). -/
@@ -46,13 +49,21 @@ theorem parseFilter_error_or_value (bs : Bytes) : parseFilter bs = none ∨ ∃ 
 theorem parseScript_accepts_iff (bs : Bytes) : (parseScript bs).isSome = (parseEquation bs).isSome := by
   simp [parseScript]
 
-/-- the model's outcome on the witnesses of C06jp-fault-as-error is the error result:
+/-- the model's outcome on the witnesses of C06jp-fault-as-error (fixed in a3a42a0) is the error result:
 `$['` (readStr), `/` (readRegex), `'\` (readEscStr), `length` (readOpArgs), `$[?(1)][(` (readProc) -/
 theorem fault_inputs_are_errors :
     parseExpr [36, 91, 39] = none ∧ parseEquation [47] = none ∧ parseEquation [39, 92] = none ∧
       parseEquation [108, 101, 110, 103, 116, 104] = none ∧
       parseExpr [36, 91, 63, 40, 49, 41, 93, 91, 40] = none ∧ parseFilter [91, 63, 39, 93] = none := by
   decide +kernel
+
+/-- the bounds checks of a3a42a0 are present in jp/parse.go as it is now: `readStr` and `readRegex` raise when
+nothing was read, `readEscStr` fails on a backslash at the end, `readOpArgs` tests the length before the byte,
+`readProc` searches for `)]` from the current position -/
+theorem guards_present :
+    Gen.JpFacts.readStrGuard = true ∧ Gen.JpFacts.readRegexGuard = true ∧ Gen.JpFacts.readEscStrGuard = true ∧
+      Gen.JpFacts.readOpArgsGuard = true ∧ Gen.JpFacts.readProcFromPos = true := by
+  decide
 
 /-- the empty text is the empty expression; a lone quote inside a filter is an error, not a value -/
 example : (parseExpr []).map Frag.encL = some [] ∧ parseFilter [91, 63, 40, 39, 41, 93] = none := by decide +kernel
